@@ -28,8 +28,20 @@ var serial int64 = 1000
 func nextSerial() *big.Int { serial++; return big.NewInt(serial) }
 
 // NewCA creates a self-signed ECDSA P-256 CA.
-func NewCA(cn string) (*CA, error) {
-	key, err := ecdsa.GenerateKey(elliptic.P256(), rand.Reader)
+func NewCA(cn string) (*CA, error) { return newCACurve(cn, "p256") }
+
+func curveOf(name string) elliptic.Curve {
+	switch name {
+	case "p384":
+		return elliptic.P384()
+	case "p521":
+		return elliptic.P521()
+	}
+	return elliptic.P256()
+}
+
+func newCACurve(cn, curve string) (*CA, error) {
+	key, err := ecdsa.GenerateKey(curveOf(curve), rand.Reader)
 	if err != nil {
 		return nil, err
 	}
@@ -95,14 +107,20 @@ type SigningChain struct {
 
 // NewSigningChain creates a chain. keyType is "rsa" or "ecdsa".
 func NewSigningChain(keyType string, withIntermediate bool) (*SigningChain, error) {
-	root, err := NewCA("verif smime root")
+	return NewSigningChainIssuer(keyType, withIntermediate, "p256")
+}
+
+// NewSigningChainIssuer lets the caller choose the curve of the issuing CA ("p256", "p384", "p521"),
+// which determines the hash of the signature ON the signer certificate (SHA-256/384/512).
+func NewSigningChainIssuer(keyType string, withIntermediate bool, issuerCurve string) (*SigningChain, error) {
+	root, err := newCACurve("verif smime root", issuerCurve)
 	if err != nil {
 		return nil, err
 	}
 	issuerCert, issuerKey := root.Cert, root.Key
 	sc := &SigningChain{Root: root.Cert}
 	if withIntermediate {
-		ikey, err := ecdsa.GenerateKey(elliptic.P256(), rand.Reader)
+		ikey, err := ecdsa.GenerateKey(curveOf(issuerCurve), rand.Reader)
 		if err != nil {
 			return nil, err
 		}
